@@ -7,6 +7,10 @@
    raise-site skeleton of tls.py GENERATED (coq/gen/C05Tls.v). *)
 From AQ Require Import gen.C05Tls gen.TlsDispatch model.TlsParse model.TlsRecv proofs.TlsParseP proofs.TlsRecvP proofs.TlsSitesP.
 From AQ Require Import lib.Base model.Frames gen.C05Tables model.ConnRecv proofs.FramesP proofs.ConnRecvP.
+From AQ Require Import model.ConnDgram proofs.ConnDgramP.
+From AQ Require proofs.CodecProofs.
+From AQ Require model.Builder model.ConnClose proofs.BuilderProofs proofs.ConnCloseP.
+From AQ Require model.Timers model.TimersSpec proofs.AfterCloseP.
 
 (* For ALL payload byte strings and every frame boundary reached through successfully handled frames
    (induction over the frame loop), in both model variants: an empty payload closes with
@@ -30,28 +34,39 @@ Theorem parse_error_classification : forall p st epoch creq,
 Proof. exact parse_error_classification_all. Qed.
 Print Assumptions parse_error_classification.
 
-(* Frame layer of receive_total, PATCHED model: for every payload byte string, every epoch, every
-   abstract connection state and every answer of the TLS engine that is not itself an escaping
-   exception, receive_datagram below decryption returns normally, and a QuicConnectionError carries
-   a QuicErrorCode or CRYPTO_ERROR + alert.  _partial: the TLS engine in handshake states, the
-   header parser and the transmit path are outside this theorem (docs/C05.md). *)
-Theorem receive_total_partial : forall st epoch creq rbits payload,
-  oracle_total (c_tls_oracle st) ->
+(* receive_total_tls: frame layer + TLS message layer (TlsRecv.crypto_deliver substituted below the CRYPTO handler; no
+   hypothesis about the TLS engine's answers is left).  For EVERY abstract connection state whose tls.Context satisfies
+   the hypotheses of tls_handle_message_total (wf_cfg, wf0), every epoch, flags, payload byte string and EVERY valuation
+   of the oracle records (cryptography / X.509 / callbacks): receive_datagram below decryption never lets an exception
+   escape; a QuicConnectionError raised out of _payload_received carries a QuicErrorCode, CRYPTO_ERROR + one of nine
+   alerts, or the code the transport-parameter callback raised; the tls.Context left behind satisfies the hypotheses
+   again (so the statement composes over packets), and handlers never set a close initiated by this endpoint. *)
+Theorem receive_total_tls : forall st epoch creq rbits payload,
+  tls_ok (c_tls st) ->
   (forall n k, receive_packet true st epoch creq rbits payload <> OExn n k) /\
   match payload_received true st epoch creq payload with
-  | PDone _ _ _ _ => True
-  | PQErr _ _ code _ => code_ok (c_tls_oracle st) code
+  | PDone st' _ _ _ => tls_ok (c_tls st') /\ close_step (c_close st) (c_close st')
+  | PQErr prior _ code _ => code_ok (c_tls st) code /\ close_step (c_close st) prior
   | PExn _ _ => False
   end.
 Proof. exact receive_total_frames. Qed.
-Print Assumptions receive_total_partial.
+Print Assumptions receive_total_tls.
+
+(* "Own close code is documented", carried through _close_event to the outcome: if no close was decided before the
+   packet (receive_datagram's gate) and the transport-parameter callback only raises QuicErrorCode values, a close
+   initiated by this endpoint carries a QuicErrorCode or CRYPTO_ERROR + a TLS alert. *)
+Theorem receive_close_code_documented : forall st epoch creq rbits payload n code ft,
+  tls_ok (c_tls st) -> orcs_in_range (c_tls st) -> c_close st = None ->
+  receive_packet true st epoch creq rbits payload = OClosed n code ft -> code_documented code.
+Proof. exact receive_close_code. Qed.
+Print Assumptions receive_close_code_documented.
 
 (* The same statement is FALSE for the pinned model: NEW_CONNECTION_ID(seq 20, retire_prior_to 11) in a
    reachable state raises IndexError (finding N1), and a non-INITIAL first packet makes a server raise
    AssertionError (finding F2); the patched model closes with PROTOCOL_VIOLATION / drops the packet. *)
 Theorem receive_total_refuted :
   (exists st epoch payload n,
-     oracle_total (c_tls_oracle st) /\ c_close st = None /\
+     tls_ok (c_tls st) /\ c_close st = None /\
      receive_packet false st epoch false false payload = OExn n EXN_IndexError /\
      receive_packet true st epoch false false payload = OClosed n EC_PROTOCOL_VIOLATION FT_NEW_CONNECTION_ID) /\
   (exists ptype len,
@@ -212,3 +227,73 @@ Theorem tls_certificate_refuted :
   handle_message true cfg_default_client t11_ctx [t11_orc] t11_cert = MExn (XAlert AD_bad_certificate).
 Proof. exact set_peer_certificate_refuted. Qed.
 Print Assumptions tls_certificate_refuted.
+
+(* ---------------------------------------------------------------------------------------------------
+   receive_datagram from the RAW DATAGRAM BYTES (model/ConnDgram.v): gate, loop over coalesced packets, pull_quic_header
+   (C17's Header.v) inside `except ValueError`, header decisions, Version Negotiation / Retry, server initialisation,
+   key lookup, buf.seek, decryption as an oracle (failure or ANY plaintext), reserved bits, the frame loop with the TLS
+   message layer, `except QuicConnectionError -> close()`, the gate after every packet, migration.
+   For EVERY byte string, every connection state satisfying the invariant [dconn_ok] (tls_ok; _initialize() has run
+   unless this is a server in FIRSTFLIGHT; no _close_event while the gate is open) and EVERY oracle valuation:
+   no exception escapes, the invariant holds again, and if this call makes the endpoint close, the code is documented. *)
+Theorem receive_datagram_total : forall c data orcs,
+  CodecProofs.bytes_ok data -> dconn_ok c ->
+  match receive_datagram true c data orcs with
+  | DOk c' _ => dconn_ok c' /\ (c_close (d_st c) = None -> own_close_ok (po0 :: orcs) (c_close (d_st c')))
+  | DRaise _ _ => False
+  end.
+Proof. exact receive_datagram_total_all. Qed.
+Print Assumptions receive_datagram_total.
+
+(* ... hence for any sequence of datagrams *)
+Theorem receive_datagrams_total : forall ds c,
+  Forall (fun d => CodecProofs.bytes_ok (fst d)) ds -> dconn_ok c ->
+  exists c', receive_all true c ds = Some c' /\ dconn_ok c'.
+Proof. exact receive_all_total. Qed.
+Print Assumptions receive_datagrams_total.
+
+(* a parsed header has consumed at least one byte (the loop terminates), and a Retry header its 16-byte tag
+   (so `buf.data_slice(start_off, buf.tell() - 16)` cannot raise) *)
+Theorem header_consumes : forall hcl bs h rest,
+  Header.pull_quic_header hcl bs = Ok (h, rest) ->
+  Zlen rest + (if Header.h_type h =? Header.PT_RETRY then 16 else 1) <= Zlen bs.
+Proof. exact header_consumed. Qed.
+Print Assumptions header_consumes.
+
+(* ---------------------------------------------------------------------------------------------------
+   After a close.  (1) receive_datagram: the gate is part of receive_datagram_total above.
+   (2) datagrams_to_send's close branch, on C13's builder model (model/ConnClose.v): *)
+
+(* the tree AS IT IS (finding R1): a client whose Initial header carries the 1300-byte (or 1140-byte) token of a Retry
+   packet and that has decided to close: builder.start_packet (start_frame) raises QuicPacketBuilderStop, which nothing
+   catches in this branch -- it escapes datagrams_to_send(), _close_pending stays set, every later call raises again.
+   1130 bytes is the largest token for which the round works.  With docs/C05-fix-10.patch the round returns (nothing
+   to send in the Initial space). *)
+Theorem after_close_refuted :
+  ConnClose.close_send false (ConnCloseP.r1_cfg 1300) 0 ConnCloseP.r1_keys ConnCloseP.r1_ev = (Builder.OStop, []) /\
+  ConnClose.close_send false (ConnCloseP.r1_cfg 1140) 0 ConnCloseP.r1_keys ConnCloseP.r1_ev = (Builder.OStop, []) /\
+  ConnClose.close_send false (ConnCloseP.r1_cfg 1130) 0 ConnCloseP.r1_keys ConnCloseP.r1_ev = (Builder.ODone, [1200]) /\
+  ConnClose.close_send true (ConnCloseP.r1_cfg 1300) 0 ConnCloseP.r1_keys ConnCloseP.r1_ev = (Builder.ODone, []) /\
+  ConnClose.close_send true (ConnCloseP.r1_cfg 1140) 0 ConnCloseP.r1_keys ConnCloseP.r1_ev = (Builder.ODone, []).
+Proof. exact ConnCloseP.close_send_refuted. Qed.
+Print Assumptions after_close_refuted.
+
+(* with the patch: for EVERY builder configuration of this branch (any max_datagram_size the CryptoPair can encrypt, any
+   connection-ID and token lengths), every key availability, every close event with varint-sized code / frame type:
+   the round -- start_packet, _write_connection_close_frame, _end_packet, flush -- returns normally: no
+   QuicPacketBuilderStop, BufferWriteError, AssertionError, ValueError or CryptoError *)
+Theorem after_close_send_total : forall c pn k ev,
+  BuilderProofs.wf_cfg c -> BuilderProofs.crypto_fits c ->
+  Builder.c_max_flight c = None -> Builder.c_max_total c = None -> ConnCloseP.ev_ok ev ->
+  fst (ConnClose.close_send true c pn k ev) = Builder.ODone.
+Proof. exact ConnCloseP.close_send_total. Qed.
+Print Assumptions after_close_send_total.
+
+(* (3) the API state machine (C09's model/Timers.v): in every state reached by a history that began with connect() /
+   a first datagram and is not TERMINATED -- so in every state after a close began -- receive_datagram,
+   datagrams_to_send, get_timer, handle_timer, next_event and close() return normally, and this holds along every
+   continuation of the history until termination *)
+Theorem after_close_total : forall client o ops more, TimersSpec.first_op client o ->
+  AfterCloseP.no_raise_until_terminated (snd (Timers.run (Timers.conn_init client) (o :: ops))) more.
+Proof. exact AfterCloseP.after_close_history. Qed.
+Print Assumptions after_close_total.
